@@ -9,16 +9,19 @@ import OnlVerif.Generated.Sched
 delay of `Scheduler.send_packet`, `base.py`, belongs to C12: `Generated/SchedTx.lean`, `Lemmas/GenSchedTx.lean`).
 The model keeps the per-class dicts (`finish_times`, `class_count`, `vc`, `aux_vc`) as association lists and every lookup
 that can miss as an explicit error; the generated code is the method *seen from the class of the packet in hand*: the dict
-entries of that class are scalar fields.  `GenSched.wfqObj` / `vcObj` is that view of a model state; the weights of the
-active classes (the `for i in self.active_set` loop) are handed to the generated code as the list `activeWeights`.
+entries of that class are scalar fields.  `GenSched.wfqObj` / `vcObj` is that view of a model state; the weight
+table with the answers of the membership tests (the `for i in self.weights: if i in self.active_set` loop) is handed to the
+generated code as the list `weightTable`; that the sum in table order is the model's sum over the ascending active classes is
+`tableSum_eq_wSum`.
 All statements are over exact rationals.
 -/
 
 namespace GenSched
 open Stamp
 
-/-- `[self.weights[i] for i in self.active_set]` -/
-def activeWeights (c : WfqCfg ℚ) (st : WfqSt ℚ) : List ℚ := st.active.map (WFQ.wOf c.weights)
+/-- `[(i in self.active_set, self.weights[i]) for i in self.weights]`: the weight table in the dict's key order, every entry
+with the answer of its membership test -/
+def weightTable (c : WfqCfg ℚ) (st : WfqSt ℚ) : List (Bool × ℚ) := c.weights.map fun kw => (st.active.contains kw.1, kw.2)
 
 /-- the `WFQ` object seen from class `k` with weight `w`; `e1 e2 e3` count the effects so far, `ps pa` is the key of
 the last `PriorityItem` stored -/
@@ -27,22 +30,79 @@ def wfqObj (c : WfqCfg ℚ) (st : WfqSt ℚ) (k : Nat) (w : ℚ) (e1 e2 e3 : Nat
     weights := w, class_count := lookup st.classCount k,
     eff_add_packet_to_queue := e1, eff_active_add := e2, eff_store_put := e3, put_stamp := ps, put_arrival := pa }
 
-theorem foldl_add_eq_sum (l : List ℚ) (acc : ℚ) : List.foldl (fun a w => a + w) acc l = acc + l.sum := by
-  induction l generalizing acc with
-  | nil => simp
-  | cons x xs ih => simp only [List.foldl_cons, ih, List.sum_cons]; ring
+/-- the weight table is a Python dict: every class id is a key once -/
+def KeysNodup (c : WfqCfg ℚ) : Prop := (c.weights.map Prod.fst).Nodup
 
-theorem activeWeights_sum (c : WfqCfg ℚ) (st : WfqSt ℚ) :
-    List.foldl (fun a w => a + w) 0 (activeWeights c st) = WFQ.wSum c.weights st.active := by
-  rw [foldl_add_eq_sum, zero_add]; rfl
+/-- the sum the translated loop computes: in table order, the weights of the entries whose class is in `l` -/
+def tableSum (w : List (Nat × ℚ)) (l : List Nat) : ℚ := (w.map fun kw => if l.contains kw.1 then kw.2 else 0).sum
 
-/-- `update_vtime` -/
+theorem foldl_table_eq (w : List (Nat × ℚ)) (l : List Nat) (acc : ℚ) :
+    List.foldl (fun a (e : Bool × ℚ) => if e.1 then a + e.2 else a) acc (w.map fun kw => (l.contains kw.1, kw.2)) =
+      acc + tableSum w l := by
+  induction w generalizing acc with
+  | nil => simp [tableSum]
+  | cons x xs ih =>
+    simp only [List.map_cons, List.foldl_cons, ih, tableSum, List.sum_cons]
+    cases l.contains x.1 <;> simp; ring
+
+/-- in a table without a repeated key, the entries of class `k` sum up to `weights[k]` (0 when there is none) -/
+theorem keySum_eq (w : List (Nat × ℚ)) (k : Nat) (hn : (w.map Prod.fst).Nodup) :
+    (w.map fun kw => if kw.1 = k then kw.2 else 0).sum = WFQ.wOf w k := by
+  induction w with
+  | nil => simp [WFQ.wOf, lookup]
+  | cons x xs ih =>
+    obtain ⟨k', v⟩ := x
+    simp only [List.map_cons, List.nodup_cons] at hn
+    simp only [List.map_cons, List.sum_cons, WFQ.wOf, lookup]
+    by_cases hk : k' = k
+    · subst hk
+      have hz : (xs.map fun kw => if kw.1 = k' then kw.2 else 0).sum = 0 := by
+        apply List.sum_eq_zero
+        intro y hy
+        obtain ⟨kw, hkw, rfl⟩ := List.mem_map.mp hy
+        have : kw.1 ≠ k' := fun e => hn.1 (e ▸ List.mem_map_of_mem (f := Prod.fst) hkw)
+        simp [this]
+      simp [hz]
+    · have := ih hn.2
+      simp only [WFQ.wOf] at this
+      simp [hk, this]
+
+/-- **summing in table order = summing over the active classes** (exact rationals: addition is commutative), for a list of
+distinct classes and a table without a repeated key -/
+theorem tableSum_eq_wSum (w : List (Nat × ℚ)) (l : List Nat) (hn : (w.map Prod.fst).Nodup) (hl : l.Nodup) :
+    tableSum w l = WFQ.wSum w l := by
+  induction l with
+  | nil => simp [tableSum, WFQ.wSum]
+  | cons k ks ih =>
+    simp only [List.nodup_cons] at hl
+    have hsplit : tableSum w (k :: ks) = (w.map fun kw => if kw.1 = k then kw.2 else 0).sum + tableSum w ks := by
+      unfold tableSum
+      rw [← List.sum_map_add]
+      congr 1
+      apply List.map_congr_left
+      intro kw _
+      by_cases h1 : kw.1 = k
+      · simp [h1, hl.1]
+      · simp [h1]
+    rw [hsplit, keySum_eq w k hn, ih hl.2]
+    simp [WFQ.wSum]
+
+theorem weightTable_sum (c : WfqCfg ℚ) (st : WfqSt ℚ) (hn : KeysNodup c) (hs : st.active.Pairwise (· < ·)) :
+    List.foldl (fun a (e : Bool × ℚ) => if e.1 then a + e.2 else a) 0 (weightTable c st) = WFQ.wSum c.weights st.active := by
+  unfold weightTable
+  rw [foldl_table_eq, zero_add]
+  exact tableSum_eq_wSum _ _ hn (hs.imp (fun h => Nat.ne_of_lt h))
+
+/-- `update_vtime`: the loop of the source adds the weights in *table* order, the model in ascending class order - the same
+rational; `hn`: the table is a dict, `hs`: the model keeps `active_set` strictly ascending (`WFQ.WInv.sorted`, every
+reachable state) -/
 theorem update_vtime_eq (c : WfqCfg ℚ) (st st1 : WfqSt ℚ) (now : ℚ) (k : Nat) (w : ℚ) (e1 e2 e3 : Nat) (ps pa : ℚ)
+    (hn : KeysNodup c) (hs : st.active.Pairwise (· < ·))
     (h : WFQ.updateVtime c st now = .ok st1) :
-    Gen.WFQ.update_vtime (wfqObj c st k w e1 e2 e3 ps pa) now (activeWeights c st) = wfqObj c st1 k w e1 e2 e3 ps pa := by
+    Gen.WFQ.update_vtime (wfqObj c st k w e1 e2 e3 ps pa) now (weightTable c st) = wfqObj c st1 k w e1 e2 e3 ps pa := by
   obtain ⟨_, _, rfl⟩ := WFQ.updateVtime_spec c st st1 now h
   unfold Gen.WFQ.update_vtime
-  simp only [Num.ofNat_rat', Nat.cast_zero, activeWeights_sum]
+  simp only [Num.ofNat_rat', Nat.cast_zero, weightTable_sum c st hn hs]
   rfl
 
 /-- `reset_vtime`, seen from a class that has a weight -/
@@ -54,9 +114,10 @@ theorem reset_vtime_eq (c : WfqCfg ℚ) (st : WfqSt ℚ) (k : Nat) (w : ℚ) (e1
 
 /-- the first statement pair of `put` -/
 theorem advance_eq (c : WfqCfg ℚ) (st st1 : WfqSt ℚ) (now : ℚ) (total : Int) (k : Nat) (w : ℚ) (e1 e2 e3 : Nat) (ps pa : ℚ)
+    (hn : KeysNodup c) (hs : st.active.Pairwise (· < ·))
     (hw : lookup c.weights k = some w) (h : WFQ.advance c st now total = .ok st1) :
     (if total = 0 then Gen.WFQ.reset_vtime (wfqObj c st k w e1 e2 e3 ps pa)
-     else Gen.WFQ.update_vtime (wfqObj c st k w e1 e2 e3 ps pa) now (activeWeights c st)) =
+     else Gen.WFQ.update_vtime (wfqObj c st k w e1 e2 e3 ps pa) now (weightTable c st)) =
       wfqObj c st1 k w e1 e2 e3 ps pa := by
   unfold WFQ.advance at h
   split at h
@@ -64,17 +125,18 @@ theorem advance_eq (c : WfqCfg ℚ) (st st1 : WfqSt ℚ) (now : ℚ) (total : In
     simp only [Except.ok.injEq] at h
     rw [if_pos h0, ← h, reset_vtime_eq c st k w e1 e2 e3 ps pa hw]
   · rename_i h0
-    rw [if_neg h0, update_vtime_eq c st st1 now k w e1 e2 e3 ps pa h]
+    rw [if_neg h0, update_vtime_eq c st st1 now k w e1 e2 e3 ps pa hn hs h]
 
 /-- **`WFQ.put`** -/
 theorem wfq_put_eq (c : WfqCfg ℚ) (st st' : WfqSt ℚ) (now : ℚ) (total : Int) (F : ℚ) (p : SPkt) (e1 e2 e3 : Nat) (ps pa : ℚ)
+    (hn : KeysNodup c) (hs : st.active.Pairwise (· < ·))
     (h : WFQ.put c st now total p = .ok (st', F)) :
     ∃ k w, lookup c.flow2class p.flow = some k ∧ lookup c.weights k = some w ∧
-      Gen.WFQ.put (wfqObj c st k w e1 e2 e3 ps pa) now total p.size (activeWeights c st) =
+      Gen.WFQ.put (wfqObj c st k w e1 e2 e3 ps pa) now total p.size (weightTable c st) =
         wfqObj c st' k w (e1 + 1) (e2 + 1) (e3 + 1) F now := by
   obtain ⟨k, st1, f, w, hk, ha, hf, hw, hz, hF, hst⟩ := WFQ.put_spec c st st' now total F p h
   refine ⟨k, w, hk, hw, ?_⟩
-  have hadv := advance_eq c st st1 now total k w e1 e2 e3 ps pa hw ha
+  have hadv := advance_eq c st st1 now total k w e1 e2 e3 ps pa hn hs hw ha
   unfold Gen.WFQ.put
   simp only [hadv]
   have hFq : F = max f st1.vtime + 8 * (p.size : ℚ) / (c.rate * w) := by rw [hF, WFQ.stampOf_eq]
